@@ -235,6 +235,9 @@ pub fn run_conc(tape: &mut Tape, cfg: &ConcCfg, detail: bool) -> ConcRun {
         let hold = if w.draw(5) == 4 { Some((w.draw(nparts as u64) as usize, 1 + w.draw(25))) } else { None };
         let mut st = w.sim.lock();
         st.sched.stay = stay;
+        // a third of the runs preempt mostly at publication / removal /
+        // re-stamping calls, where the races of a lock-free protocol live
+        st.sched.hot_switch = [0u64, 0, 750][st.tape.draw(3) as usize];
         st.sched.hold = hold;
         st.stale_mode = cfg.stale_mode && st.tape.draw(2) == 1;
         if cfg.freeze {
@@ -269,7 +272,11 @@ pub fn run_conc(tape: &mut Tape, cfg: &ConcCfg, detail: bool) -> ConcRun {
         }));
     }
     desc.push(format!("sampled_fault_rate_permille={}", fault_rate));
-    desc.push(format!("participants={} shared_handle={} adversary={} fire={:?} stay={} stale_mode={} freeze={:?} crash={:?}", nparts, shared, adversary, fire, stay, w.sim.lock().stale_mode, frozen_at, crashed_proc));
+    let (stale_on, hot_on) = {
+        let st = w.sim.lock();
+        (st.stale_mode, st.sched.hot_switch)
+    };
+    desc.push(format!("participants={} shared_handle={} adversary={} fire={:?} stay={} stale_mode={} freeze={:?} crash={:?} hot_switch={}", nparts, shared, adversary, fire, stay, stale_on, frozen_at, crashed_proc, hot_on));
     for (p, prog) in programs.iter().enumerate() {
         desc.push(format!("P{} (proc {}): {:?}", p, part_proc[p], prog));
     }
